@@ -104,7 +104,7 @@ func genC03Req(e *Env, id string, streamy bool) c03Req {
 		}
 	}
 	sizes := []int{0, 1, 10, 100, 4095, 4096, 4097, 9000, 20000}
-	kinds := []string{"string", "string", "append", "raw", "stream", "stream", "streamwriter", "none", "skipbody"}
+	kinds := []string{"string", "string", "append", "raw", "raw", "stream", "stream", "streamwriter", "none", "skipbody"}
 	if streamy {
 		kinds = []string{"stream", "stream", "stream", "streamwriter", "string"}
 	}
@@ -164,7 +164,7 @@ func genC03Req(e *Env, id string, streamy bool) c03Req {
 
 func scenC03(e *Env) func() {
 	streamy := e.Prop == "C34"
-	p := &c03Plan{WriteBuf: Pick(e, 4096, 4096, 512, 16384), ReduceMem: e.Chance(30), Compress: e.Chance(Pick(e, 30, 20)), AcceptEnc: Pick(e, "gzip", "gzip", "deflate", "br", "zstd", "gzip, deflate")}
+	p := &c03Plan{WriteBuf: Pick(e, 4096, 4096, 512, 16384), ReduceMem: e.Chance(30), Compress: e.Chance(Pick(e, 30, 20)), AcceptEnc: Pick(e, "gzip", "deflate", "deflate", "br", "zstd", "gzip, deflate")}
 	if !streamy && !p.Compress {
 		p.AcceptEnc = ""
 	}
